@@ -99,15 +99,26 @@ def r02_2(ctx):
 
 
 def gdg_wiring(ctx, rule):
-    """ForwardSDE.g_prod_and_gdg_prod_* return (g v1, vjp(g, y, g (.) v2)) for each noise type."""
+    """ForwardSDE.g_prod_and_gdg_prod_* return (g v1, sum_l d g[:, l]/dy . (g[:, l] v2_l)) for each noise type: the
+    Milstein correction is a Jacobian-vector product (directional derivative of each diffusion column along itself).
+    For diagonal noise the Jacobian of g is diagonal by the declared structure, so the transposed product (one vjp) is
+    the same quantity and is accepted; for scalar / general noise it is not."""
     rep = ctx.rep
-    # wiring of GDG in ForwardSDE
     model = ctx.model
     fwd = model.cls(BASE_SDE, "ForwardSDE")
     t, y, v1, v2 = nf.sym("t", True), nf.sym("y"), nf.sym("v1"), nf.sym("v2")
-    for nt, expect_weight in (("diagonal", lambda G: G * v2), ("general", lambda G: G * nf.wrap_axis(v2, "row")),
-                              ("scalar", lambda G: G * nf.wrap_axis(v2, "row")), ("additive", None)):
-        obj, it = forward_sde_obj(model, nt)
+    # noise types under which some solver step actually calls the operator (Milstein: additive, diagonal, scalar)
+    dom = _dom(ctx)
+    names = {v: k for k, v in dom.noise_types.items()}
+    used = sorted({names[sc.noise_type] for sc in steps.scenarios(model, dom)
+                   if any(isinstance(n, ast.Attribute) and n.attr == "g_prod_and_gdg_prod" for n in ast.walk(sc.step_fi.node))})
+    if len(used) < 3:
+        raise AnalysisError(f"g_prod_and_gdg_prod is used by solver steps under {used} only; Milstein's noise types changed")
+    for nt in used:
+        M = 1 if nt == "scalar" else 2
+        hooks = ColumnHooks(M)
+        it = Interp(model, hooks)
+        obj = it.instantiate(fwd, [user_sde_obj(nt)], {})
         try:
             slot = it.getattr(obj, "g_prod_and_gdg_prod")
             out = it.call(slot, [t, y, v1, v2], {})
@@ -122,16 +133,34 @@ def gdg_wiring(ctx, rule):
         first, second = out
         # the diffusion-vector product itself: element-wise for diagonal noise, batched mat-vec otherwise
         ref1 = G * v1 if nt == "diagonal" else nf.bilinear("mvp", G, v1)
-        if expect_weight is None:
+        where = astq.loc(fi) if fi else fwd.module.relpath
+        construct = f"{fwd.key}::{rule}::gdg-wiring::{nt}"
+        if nt == "additive":
             ok = nf.equal(first, ref1) and nf.equal(Rat.lift(second), Rat.const(0))
-            msg = f"additive: got ({first}, {second}), expected ({ref1}, 0)"
+            rep.check(ok, rule, where, construct, f"Milstein correction mis-wired -- additive: got ({first}, {second}), "
+                      f"expected ({ref1}, 0)", "returns (g v1, 0)")
+            continue
+        if nt == "diagonal":
+            refs = [nf.linear("VJP", (G.key(), y.key()), G * v2), nf.linear("JVP", (G.key(), y.key()), G * v2)]
         else:
-            ref2 = nf.linear("VJP", (G.key(), y.key()), expect_weight(G))
-            ok = nf.equal(first, ref1) and nf.equal(second, ref2)
-            msg = f"{nt}: got ({first}, {second}), expected ({ref1}, {ref2})"
-        rep.check(ok, rule, astq.loc(fi) if fi else fwd.module.relpath,
-                  f"{fwd.key}::{rule}::gdg-wiring::{nt}", "Milstein correction mis-wired -- " + msg,
-                  "returns (g v1, vjp(g, y, g (.) v2))")
+            gv = G * nf.wrap_axis(v2, "row")
+            col_sum = Rat.const(0)
+            for col in range(M):
+                gc = nf.linear(f"getitem[...,{col}]", (), G)
+                col_sum = col_sum + nf.linear("JVP", (gc.key(), y.key()), nf.linear(f"getitem[...,{col}]", (), gv))
+            refs = [col_sum]
+        ok = nf.equal(first, ref1) and isinstance(second, Rat) and any(nf.equal(second, r) for r in refs)
+        if not ok and isinstance(second, Rat):
+            vocab = {a[1] for a in nf.all_atoms(second) if a[0] == "lin"}
+            if not vocab or not vocab <= {"VJP", "JVP"} | {f"getitem[...,{c}]" for c in range(M)}:
+                raise AnalysisError(f"g_prod_and_gdg_prod for {nt} noise evaluates to `{second}`: not built from the "
+                                    f"recognised autograd helpers, cannot be compared with its definition", where=where)
+        rep.check(ok, rule, where, construct,
+                  f"Milstein correction mis-wired -- {nt}: got ({first}, {second}); the textbook term 1/2 sum_l (d g[:, l]/dy) "
+                  f"g[:, l] v_l is a Jacobian-vector product per diffusion column, `{refs[0]}`"
+                  + (" (a vector-Jacobian product J^T (g v) equals it only when the Jacobian of g is symmetric, e.g. state "
+                     "dimension 1)" if nt != "diagonal" else ""),
+                  "returns (g v1, sum_l jvp(g[:, l], y, g[:, l] v2_l))")
 
 
 class FwdHooks(solverkit.StepHooks):
@@ -175,6 +204,22 @@ class FwdHooks(solverkit.StepHooks):
             if nm == "batch_mvp":
                 return nf.bilinear("mvp", args[0], args[1])
         return NotImplemented
+
+
+class ColumnHooks(FwdHooks):
+    """FwdHooks + a concrete number of noise channels, so that per-column loops over g.size(-1) unroll."""
+
+    def __init__(self, M=2):
+        super().__init__()
+        self.M = M
+
+    def tensor_method(self, interp, recv, name, args, kwargs, node, fi):
+        if name == "size":
+            if args and int(args[0]) == -1:
+                return Fraction(self.M)
+            if not args:
+                return (nf.sym("batch", True), nf.sym("d", True), Fraction(self.M))
+        return FwdHooks.tensor_method(self, interp, recv, name, args, kwargs, node, fi)
 
 
 def user_sde_obj(noise_type, sde_type="ito", available=("f", "g")):
